@@ -254,11 +254,13 @@ theorem pollFail_exc (s : St) : pollFail s .exc = s := by
 
 /-! ### the simulation -/
 
-/-- either an apply task is still to start, or the one inside `update_listeners` carries the current value, or
-    what is installed is current -/
+/-- either an apply task is still to start or stands before the lock, or the one under the lock carries the current
+    value, or what is installed is current -/
 def Settled (s : St) : Prop :=
   s.holding.length ≤ 1 ∧
-  (s.svc.queued ≠ [] ∨ s.holding = [⟨s.svc.polled, false⟩] ∨ s.holding = [⟨s.svc.polled ++ s.svc.custom, true⟩] ∨
+  (s.svc.queued ≠ [] ∨ s.pre ≠ [] ∨
+    (∃ l v, s.holding = [⟨l, v, false⟩] ∧ l.new_config = s.svc.polled) ∨
+    (∃ l, s.holding = [⟨l, s.svc.polled ++ s.svc.custom, true⟩]) ∨
     (s.holding = [] ∧ s.h.installed = s.svc.polled ++ s.svc.custom))
 
 structure Rel (s : St) (r : Ref) : Prop where
@@ -278,8 +280,9 @@ theorem newConfig_running (h : Handler) (v : List Trig) (hr : h.stopped = false)
     newConfig h v = { h with installed := v } := by
   simp [newConfig, hr]
 
-theorem listenerRead_eq (v : Svc) (c : List Trig) : listenerRead v c = v.polled := rfl
-theorem listenerArg_eq (v : Svc) (c : List Trig) : listenerArg v c = c ++ v.custom := rfl
+theorem listenerPre_eq (v : Svc) (l : Locals) : listenerPre v l = l := rfl
+theorem listenerRead_eq (v : Svc) (l : Locals) : (listenerRead v l).new_config = v.polled := rfl
+theorem listenerArg_eq (v : Svc) (l : Locals) : listenerArg v l = l.new_config ++ v.custom := rfl
 
 /-- with at most one holder, index `k` naming a holder means `k = 0` and it is the only one -/
 theorem holding_single {l : List Hold} {k : Nat} {v : Hold} (hlen : l.length ≤ 1) (hk : l[k]? = some v) :
@@ -348,19 +351,25 @@ theorem rel_step (s : St) (r : Ref) (op : Op) (hr : Rel s r) : Rel (step true s 
       · simp only [refStep]; rw [← hl]; exact hz
       · simp only [step, removeCustom_some _ _ _ hf, refStep]; exact hn
       · simp [step, removeCustom_some _ _ _ hf]
-  | taskRead i =>
+  | taskStart i =>
     simp only [step, refStep]
     cases hq : s.svc.queued[i]? with
     | none => exact ⟨wf, hp, hh, hl, hn, hrun, hlen, hset⟩
     | some t =>
+      refine ⟨⟨wf.len, wf.fresh, wf.nodup⟩, hp, hh, hl, hn, hrun, hlen, Or.inr (Or.inl (by simp))⟩
+  | taskRead k =>
+    simp only [step, refStep]
+    cases hq : s.pre[k]? with
+    | none => exact ⟨wf, hp, hh, hl, hn, hrun, hlen, hset⟩
+    | some l =>
       cases hhold : s.holding with
       | cons v vs =>
         simp only [Bool.true_and, List.isEmpty_cons, Bool.not_false, if_true]
-        exact ⟨wf, hp, hh, hl, hn, hrun, hlen, hset⟩
+        exact ⟨wf, hp, hh, hl, hn, hrun, hhold ▸ hlen, hhold ▸ hset⟩
       | nil =>
         simp only [Bool.true_and, List.isEmpty_nil, Bool.not_true, Bool.false_eq_true, if_false, List.nil_append]
-        refine ⟨⟨wf.len, wf.fresh, wf.nodup⟩, hp, hh, hl, hn, hrun, by simp, Or.inr (Or.inl ?_)⟩
-        simp [listenerRead_eq]
+        refine ⟨wf, hp, hh, hl, hn, hrun, by simp, Or.inr (Or.inr (Or.inl ⟨_, _, rfl, ?_⟩))⟩
+        exact listenerRead_eq _ _
   | taskCall k =>
     simp only [step, refStep]
     cases hk : s.holding[k]? with
@@ -374,12 +383,14 @@ theorem rel_step (s : St) (r : Ref) (op : Op) (hr : Rel s r) : Rel (step true s 
       | false =>
         simp only [Bool.false_eq_true, if_false]
         refine ⟨wf, hp, hh, hl, hn, hrun, by simp [hone], ?_⟩
-        rcases hset with hq | hv | hv | ⟨he, _⟩
+        rcases hset with hq | hq | ⟨l, w, hv, hnc⟩ | ⟨l, hv⟩ | ⟨he, _⟩
         · exact Or.inl hq
-        · refine Or.inr (Or.inr (Or.inl ?_))
+        · exact Or.inr (Or.inl hq)
+        · refine Or.inr (Or.inr (Or.inr (Or.inl ⟨v.loc, ?_⟩)))
           rw [hone] at hv ⊢
           simp only [List.cons.injEq, and_true] at hv
-          simp [hv, listenerArg_eq]
+          subst hv
+          simp [listenerArg_eq, hnc]
         · rw [hone] at hv
           simp only [List.cons.injEq, and_true] at hv
           rw [hv] at hb; simp at hb
@@ -399,12 +410,13 @@ theorem rel_step (s : St) (r : Ref) (op : Op) (hr : Rel s r) : Rel (step true s 
         refine ⟨wf, hp, hh, hl, hn, ?_, ?_, ?_⟩
         · simp [newConfig_running _ _ hrun, hrun]
         · simp [hone]
-        · rcases hset with hq | hv | hv | ⟨he, _⟩
+        · rcases hset with hq | hq | ⟨l, w, hv, hnc⟩ | ⟨l, hv⟩ | ⟨he, _⟩
           · exact Or.inl hq
+          · exact Or.inr (Or.inl hq)
           · rw [hone] at hv
             simp only [List.cons.injEq, and_true] at hv
             rw [hv] at hb; simp at hb
-          · refine Or.inr (Or.inr (Or.inr ⟨by simp [hone], ?_⟩))
+          · refine Or.inr (Or.inr (Or.inr (Or.inr ⟨by simp [hone], ?_⟩)))
             rw [hone] at hv
             simp only [List.cons.injEq, and_true] at hv
             simp [newConfig_running _ _ hrun, hv]
@@ -420,7 +432,8 @@ theorem rel_step (s : St) (r : Ref) (op : Op) (hr : Rel s r) : Rel (step true s 
         exact ⟨wf, hp, hh, hl, hn, hrun, hhold ▸ hlen, hhold ▸ hset⟩
       | nil =>
         simp only [Bool.true_and, List.isEmpty_nil, Bool.not_true, Bool.false_eq_true, if_false]
-        refine ⟨⟨wf.len, wf.fresh, wf.nodup⟩, hp, hh, hl, hn, ?_, by simp, Or.inr (Or.inr (Or.inr ⟨rfl, ?_⟩))⟩
+        refine ⟨⟨wf.len, wf.fresh, wf.nodup⟩, hp, hh, hl, hn, ?_, by simp,
+          Or.inr (Or.inr (Or.inr (Or.inr ⟨rfl, ?_⟩)))⟩
         · simp [newConfig_running _ _ hrun, hrun]
         · simp [newConfig_running _ _ hrun, listenerArg_eq, listenerRead_eq]
   | timerStart text =>
